@@ -326,6 +326,52 @@ def run_fd(pid, tier, seed, replay=None):
             goals = [goals[2], goals[0], goals[1]] + goals[3:]
         body = [["fresh", ["a", "b", "c"]] + goals]
         cases.append(mk_case([], ["q", "r"], body, spec=(["q", "r"], {"q": dq, "r": dr}, cons), mode="bag_terms", budget=20000, maxans=200))
+    # hidden domain variables aliased by var-var unification (either orientation, before or after the constraint is
+    # posted) whose constraint is still stored when the answer is reified: the domain then lives under the representative
+    for _ in range(n // 3):
+        names = ["q", "r", "h", "g"]
+        doms, body = {}, []
+        for v in names:
+            d, vals = rand_domain(rnd, 0, 4)
+            if len(vals) < 2:
+                d, vals = ["i", 0, 3], [0, 1, 2, 3]
+            doms[v] = vals
+            body.append(["dom", v, d])
+        a, b = rnd.choice([("h", "g"), ("g", "h"), ("h", "q"), ("q", "h"), ("g", "r")])
+        alias = ["eq", a, b]
+        cons = [["eq", a, b]]
+        rels = []
+        for _ in range(rnd.randint(1, 2)):
+            k = rnd.choice(["ltefd", "ltfd", "diseqfd", "plusfd", "minusfd"])
+            ops = [rnd.choice(["h", "g", "h", "g", "q", "r"]) for _ in range(3 if k in ("plusfd", "minusfd") else 2)]
+            rels.append(["rel", k] + ops); cons.append([k] + ops)
+        tail = [alias] + rels
+        rnd.shuffle(tail)
+        cases.append(mk_case([], ["q", "r"], [["fresh", ["h", "g"]] + body + tail], spec=(names, doms, cons), mode="bag_terms", budget=30000, maxans=300))
+    # propagation chains: sparse domains with gaps, a binary constraint posted first, then an arithmetic constraint whose
+    # own pruning makes one operand a singleton - which wakes the first constraint, which binds the other operand while
+    # the arithmetic constraint is still running: it must be checked again before it is stored
+    for _ in range(n // 2):
+        def sparse():
+            return sorted(rnd.sample(range(-3, 9), rnd.randint(2, 3)))
+        dq, dr = sparse(), sparse()
+        ops = ["q", "r"]; rnd.shuffle(ops)
+        first = [rnd.choice(["diseqfd", "ltfd", "ltefd"])] + ops
+        rel = rnd.choice(["plusfd", "plusfd", "minusfd", "timesfd"])
+        c = rnd.randint(-4, 10)
+        args = rnd.choice([["q", "r", c], ["r", "q", c], ["q", c, "r"], [c, "q", "r"], ["r", c, "q"], ["q", "r", "h"], ["h", "q", "r"]])
+        names, doms = ["q", "r"], {"q": dq, "r": dr}
+        body = [["dom", "q", ["v"] + dq], ["dom", "r", ["v"] + dr]]
+        if "h" in args:
+            dh = sparse(); names = names + ["h"]; doms["h"] = dh
+            body.append(["dom", "h", ["v"] + dh])
+        tail = [["rel"] + first, ["rel", rel] + args]
+        if rnd.random() < 0.25:
+            tail.reverse()
+        body = body + tail
+        if "h" in args:
+            body = [["fresh", ["h"]] + body]
+        cases.append(mk_case([], ["q", "r"], body, spec=(names, doms, [first, [rel] + args]), mode="bag_terms", budget=20000, maxans=200))
     # corpus
     cases.append(mk_case([], ["q", "r"], [["dom", "q", ["i", 1, 3]], ["rel", "plusfd", "q", "q", "q"], ["dom", "r", ["i", 0, 0]]],
                          spec=(["q", "r"], {"q": [1, 2, 3], "r": [0]}, [["plusfd", "q", "q", "q"]]), mode="bag_terms"))
@@ -396,12 +442,44 @@ def run_c19(tier, seed, replay=None):
         goals = [pend, solver] if rnd.random() < 0.7 else [solver, pend]
         cases.append(mk_case([], ["q", "r", "t"], goals, zchain=True, zsolve=True, mode="bag_terms"))
 
+    # an operand solved THROUGH AN ALIAS: a constraint waits on q, q is unified with another variable (either orientation),
+    # and a second constraint with two ground operands then binds that variable - with no unification afterwards; the
+    # waiting constraint must still be re-run (it names q, the binding is recorded under the representative)
+    for _ in range(300 if tier == "quick" else 3000):
+        c1 = rnd.randint(-3, 3)
+        pend = rnd.choice([["rel", "plusz", "q", c1, "r"], ["rel", "plusz", c1, "q", "r"], ["rel", "plusz", "q", "q", c1], ["rel", "timesz", "q", c1, "r"],
+                           ["rel", "plusz", "r", c1, "q"], ["rel", "timesz", "q", "q", "r"], ["rel", "plusz", "q", "r", c1]])
+        alias = rnd.choice([["eq", "q", "t"], ["eq", "t", "q"]])
+        rel = rnd.choice(["plusz", "plusz", "timesz"])
+        a, b = rnd.randint(-3, 3), rnd.randint(-3, 3)
+        if rel == "timesz" and a == 0:
+            a = 1
+        w = a + b if rel == "plusz" else a * b
+        solver = rnd.choice([["rel", rel, a, b, "t"], ["rel", rel, a, "t", w], ["rel", rel, "t", a, (b + a if rel == "plusz" else b * a)]])
+        goals = rnd.choice([[pend, alias, solver], [alias, pend, solver], [pend, alias, solver]])
+        cases.append(mk_case([], ["q", "r", "t"], goals, zalias=True, mode="bag_terms"))
+
     def oracle(cs, impl, model):
         fails = []
         for k, (c, i) in enumerate(zip(cs, impl)):
             if i.error:
                 if i.error.startswith("panic"):
                     fails.append({"case_index": k, "what": "plusz/timesz panicked: %s" % i.error})
+                continue
+            if c.get("zalias") and i.end == "done":
+                sols = []
+                for q_ in range(-30, 31):
+                    for r_ in range(-120, 121):          # operands are within -9..9: sums and products within -81..81
+                        env = {"q": q_, "r": r_, "t": q_}
+                        if all((lambda x_, y_, z_: (x_ + y_ if g[1] == "plusz" else x_ * y_) == z_)(*[val(env, o) for o in g[2:]])
+                               for g in c["body"] if g[0] == "rel"):
+                            sols.append((q_, r_, q_))
+                if not sols and i.answers:
+                    fails.append({"case_index": k, "what": "no integers satisfy the posted constraints but an answer was returned: %s" % (i.answers[0][0],)})
+                elif len(sols) == 1:
+                    want = [str(x) for x in sols[0]]
+                    if len(i.answers) != 1 or list(i.answers[0][0]) != want:
+                        fails.append({"case_index": k, "what": "the constraints determine (q, r, t) = %s but the answers are %s" % (sols[0], [a_[0] for a_ in i.answers][:3])})
                 continue
             if c.get("zsolve") and i.end == "done":
                 # solve the small system by brute force over -40..40 and compare the determined variables
@@ -482,5 +560,6 @@ def run_c19(tier, seed, replay=None):
     return pcheck.run_check("C19", tier, seed, cases, "bag_terms", oracle, cone=["Proofs/CLPZProofs.vo", "Proofs/EngineProofs.vo", "Proofs/FDComp.vo"], replay=replay,
         rule="plusz/timesz over operand values -3..3 (exact and non-exact products, zero divisors), all 8 groundness patterns, the constraint "
              "posted before/between/after the bindings (sampled in the quick tier); random chains of 1-3 constraints with aliasing and "
-             "constants under shuffled bindings; oracle: integer arithmetic; non-trivial = at least one answer",
+             "constants under shuffled bindings; operands solved through a variable alias (var-var unification, either orientation) with "
+             "no unification afterwards; oracle: integer arithmetic; non-trivial = at least one answer",
         extra_cov=lambda cs, i, m: {"pattern_cases": sum(1 for c in cs if "zspec" in c)})
